@@ -152,8 +152,10 @@ func NewCopyChainGeneratorFromOpts(ctx context.Context, client *client.LogClient
 		Continuous:    true,
 		StartIndex:    startIndex,
 	}
+	// Each Fetcher updates the options it was given, so each gets its own copy.
+	certOpts, precertOpts := fetchOpts, fetchOpts
 	go func() {
-		certFetcher := scanner.NewFetcher(client, &fetchOpts)
+		certFetcher := scanner.NewFetcher(client, &certOpts)
 		if err := certFetcher.Run(ctx, func(batch scanner.EntryBatch) {
 			generator.processBatch(batch, generator.certs, ct.X509LogEntryType)
 		}); err != nil {
@@ -161,7 +163,7 @@ func NewCopyChainGeneratorFromOpts(ctx context.Context, client *client.LogClient
 		}
 	}()
 	go func() {
-		precertFetcher := scanner.NewFetcher(client, &fetchOpts)
+		precertFetcher := scanner.NewFetcher(client, &precertOpts)
 		if err := precertFetcher.Run(ctx, func(batch scanner.EntryBatch) {
 			generator.processBatch(batch, generator.precerts, ct.PrecertLogEntryType)
 		}); err != nil {
